@@ -56,16 +56,27 @@ def spell(rng, v):
     return r
 
 
+COMMENTS = ["# header comment x y z", "#comment in the middle 1 2 3", "# trailing comment", "#",
+            "# timestamp tx ty tz qx qy qz qw", "#timestamp [ns],p_RS_R_x [m],p_RS_R_y [m]",
+            '# note "to be continued', "# it's a comment, with commas, and 'quotes'", '# "quoted" text "twice"',
+            "# unicode: \u00fc\u00f6 \u8def\u5f84 \u03c0", "#\ttab\tseparated", "# 1.0 2.0 3.0 4.0 5.0 6.0 7.0 8.0",
+            '#,"a,b', "# trailing backslash \\"]
+
+
 def render(rng, rows, delim, eol="\n", comments=True, trailing_newline=True):
     lines = []
+
+    def com():
+        return COMMENTS[rng.integers(len(COMMENTS))]
+
     if comments and rng.random() < .5:
-        lines.append("# header comment x y z")
+        lines.append(com())
     for row in rows:
         if comments and rng.random() < .1:
-            lines.append("#comment in the middle 1 2 3")
+            lines.append(com())
         lines.append(delim.join(row))
     if comments and rng.random() < .3:
-        lines.append("# trailing comment")
+        lines.append(com())
     text = eol.join(lines)
     return text + (eol if trailing_newline else "")
 
